@@ -382,10 +382,16 @@ Fixpoint finished_ids (evs : list jevent) : list (str * str) :=
 
 (* ---------------------------------------------------------------- XmlString::new (quick-junit) *)
 
-(* the character filter applied to every string of the report (after ANSI escape sequences were
-   stripped): C0 controls other than TAB, LF, CR are removed, everything else is kept *)
-Definition xmlstring_keeps (c : N) : bool :=
+(* XmlString::new is strip_ansi_escapes::strip_str followed by a replace() filter; this is what
+   the two stages do to one character that is not part of an escape sequence.
+   Stage 1 (strip-ansi-escapes 0.2.1, the vte Perform impl): printable characters are print()ed,
+   C0 controls are execute()d and execute re-emits only LF -- so TAB and CR are dropped here;
+   ESC starts a sequence and never survives. *)
+Definition ansi_strip_keeps (c : N) : bool := (32 <=? c) || (c =? 10).
+(* Stage 2: the replace() filter removes C0 controls other than TAB, LF, CR *)
+Definition xmlstring_filter_keeps (c : N) : bool :=
   negb ((c <=? 8) || (c =? 11) || (c =? 12) || ((14 <=? c) && (c <=? 31))).
+Definition xmlstring_keeps (c : N) : bool := ansi_strip_keeps c && xmlstring_filter_keeps c.
 
 (* XML 1.0 production [2] Char *)
 Definition xml_char (c : N) : bool :=
